@@ -5,6 +5,7 @@ import gen_smiles
 import enc_side as E
 import dec_side
 import dec_common
+import hist_common as H
 from core import S, U, sf, call, drv
 
 ID = 'C10'
@@ -101,6 +102,33 @@ def run(rep, tier, seed, b):
             rep.count('stable round trips')
             if len(toks) >= 6:
                 rep.nontriv(sel[:300])
+    # the round trip holds in whatever state earlier calls left the process: an atom symbol refused for its H count under an earlier table
+    for _ in range(250 if tier == 'quick' else 5000):
+        c = H.h_boundary(rng)
+        small = s_.get_preset_constraints(c['small'][1]) if c['small'][0] == 'name' else dict(c['small'][1])
+        big = s_.get_preset_constraints(c['big'][1]) if c['big'][0] == 'name' else dict(c['big'][1])
+        dec_common.set_table(s_, small)
+        first = call(s_.decoder, c['selfies'])
+        dec_common.set_table(s_, big)
+        en = call(s_.encoder, c['smiles'], strict=True)
+        rep.evaluations += 1
+        rep.impl_traces += 3
+        inp = {'earlier_table': small, 'earlier_decode': c['selfies'], 'table': big, 'smiles': c['smiles']}
+        if 'ok' in en:
+            dd = call(s_.decoder, en['ok'])
+            if 'ok' not in dd:
+                rep.oracle_failures.append({'clause': 'decoding the returned string under the same table never raises (after an earlier call under another table)', 'input': inp,
+                                            'impl': [en['ok'], dd], 'sequence': True})
+            else:
+                re2 = call(s_.encoder, dd['ok'], strict=True)
+                if re2 != en:
+                    rep.oracle_failures.append({'clause': 'encoding the decoded SMILES again reproduces exactly the same SELFIES string (after an earlier call under another table)',
+                                                'input': inp, 'impl': [en, dd, re2], 'sequence': True})
+                else:
+                    rep.count('stable round trips after a refusal under an earlier table')
+        else:
+            rep.count('encoder rejects')
+    s_.set_semantic_constraints()
     # standardisation: equivalent spellings of an atom give the same symbol
     s_.set_semantic_constraints(E.relaxed_table())
     for a, b_ in pairs:
@@ -119,11 +147,21 @@ def run(rep, tier, seed, b):
         rep.sample({'smiles': it[1], 'selfies': r['impl'].get('ok')})
     rep.rule = ('re-spelt / mutated dataset molecules x 5 tables; bracket atoms with extreme fields (every element, isotopes with leading zeros, charges up to +-100, H0-H9, @/@@) in 9 contexts; '
                 'pairs of equivalent bracket spellings ([N+]/[N+1], ++/+2, H/H1, leading zeros, H0, atom class); ring spans and branch lengths at 14-17, 254-257, 4094-4097. '
-                'judged: symbols in the grammar (Coq spec), decoder accepts, re-encoding of the decoded SMILES gives the same string. non-trivial = distinct output with >= 6 symbols')
+                'round trips after an atom symbol was refused for its H count under an earlier table; judged: symbols in the grammar (Coq spec), decoder accepts, re-encoding of the decoded SMILES gives the same string. non-trivial = distinct output with >= 6 symbols')
 
 
 def replay(data):
     i = data['failure']['input']
+    if 'earlier_table' in i:
+        s_ = sf()
+        dec_common.set_table(s_, dict(i['earlier_table']))
+        first = call(s_.decoder, i['earlier_decode'])
+        dec_common.set_table(s_, dict(i['table']))
+        en = call(s_.encoder, i['smiles'], strict=True)
+        dd = call(s_.decoder, en['ok']) if 'ok' in en else None
+        re2 = call(s_.encoder, dd['ok'], strict=True) if dd and 'ok' in dd else None
+        s_.set_semantic_constraints()
+        return {'input': i, 'impl': [first, en, dd, re2], 'fails': 'ok' in en and (not dd or 'ok' not in dd or re2 != en)}
     if 'other_spelling' in i:
         s_ = sf()
         s_.set_semantic_constraints(dict(i['table']))
